@@ -26,7 +26,8 @@ ALLOWED_AXIOMS = {"propext", "Classical.choice", "Quot.sound"}
 
 def setup_env(jit=False):
     """Environment for importing the real yadism from /repo's working tree."""
-    os.environ.setdefault("NUMBA_DISABLE_JIT", "0" if jit else "1")
+    if jit is not None:
+        os.environ.setdefault("NUMBA_DISABLE_JIT", "0" if jit else "1")
     os.environ.setdefault("NUMBA_CACHE_DIR", str(VERIF / ".cache" / "numba"))
     os.environ[GUARD] = "1"
     src = str(REPO / "src")
@@ -164,6 +165,23 @@ def list_theorems(lean_file):
         m = re.match(r"\s*(?:@\[[^\]]*\]\s*)?(?:protected\s+)?theorem\s+([^\s:({\[]+)", line)
         if m:
             out.append(".".join(ns + [m.group(1)]))
+    return out
+
+
+def theorem_spans(lean_file):
+    """theorem name -> (first line, last line) in the property file"""
+    lines = pathlib.Path(lean_file).read_text().splitlines()
+    names = list_theorems(lean_file)
+    starts = []
+    for i, line in enumerate(lines, 1):
+        m = re.match(r"\s*(?:@\[[^\]]*\]\s*)?(?:protected\s+)?theorem\s+([^\s:({\[]+)", line)
+        if m:
+            starts.append((i, m.group(1)))
+    out = {}
+    for j, (ln, short) in enumerate(starts):
+        end = starts[j + 1][0] - 1 if j + 1 < len(starts) else len(lines)
+        full = next((n for n in names if n.endswith("." + short) or n == short), short)
+        out[full] = (ln, end)
     return out
 
 
@@ -359,10 +377,25 @@ def lean_proof_step(chk, prop_module, extra_modules=(), thorough=False):
         # find which theorems failed: any error message lines
         errs = re.findall(r"error: ([^\n]*)", log)
         chk.notes.append("lake build failed: " + " | ".join(errs[:8]))
-        for t in thms:
-            chk.obligation(t, False, "build of " + prop_module + " failed: " + (errs[0] if errs else ""))
-        if not thms:
-            chk.obligation(prop_module, False, "build failed")
+        # attribute each error to the theorem whose source range contains it
+        spans = theorem_spans(files[0])
+        rel = prop_module.replace(".", "/") + ".lean"
+        hit = {}
+        for m in re.finditer(re.escape(rel) + r":(\d+):\d+: ([^\n]*)", log):
+            ln = int(m.group(1))
+            for name, (a, b) in spans.items():
+                if a <= ln <= b:
+                    hit.setdefault(name, m.group(2))
+        if hit:
+            for t in thms:
+                if t in hit:
+                    chk.obligation(t, False, "does not check: " + hit[t][:200])
+                else:
+                    chk.obligations.append((t, False, "not re-checked: module failed to build"))
+        else:
+            for t in thms:
+                chk.obligations.append((t, False, "not re-checked: a dependency failed to build"))
+            chk.obligation(prop_module, False, "build failed: " + (errs[0] if errs else log[-300:]))
         return False
     bad = forbidden_tokens(_dep_files(prop_module))
     if bad:
